@@ -18,18 +18,26 @@ Print Assumptions C02_expression_tree_is_rebuilt.
 Theorem C02_statement_list_is_rebuilt :
   forall l ops stk f fs, wft l = true ->
     sexec (tcompile l ++ ops) (stk, f :: fs) = sexec ops (stk, add f l :: fs).
-Proof. exact (proj2 scompile_correct). Qed.
+Proof. exact (proj1 (proj2 scompile_correct)). Qed.
 Print Assumptions C02_statement_list_is_rebuilt.
 
 Theorem C02_function_body_is_rebuilt :
   forall l, wft l = true ->
-    sexec (tcompile l) ([], [mkF KTop None None TNil]) = Some ([], [mkF KTop None None l]).
+    sexec (tcompile l) ([], [mkF KTop None None TNil CNil XNil]) = Some ([], [mkF KTop None None l CNil XNil]).
 Proof. exact program_rebuilt. Qed.
 Print Assumptions C02_function_body_is_rebuilt.
+
+(* 3. switch statements: the clauses of a switch are collected in order, each with its expressions
+      and its body; the default clause is the clause without expressions *)
+Theorem C02_switch_clauses_are_rebuilt :
+  forall cs ops stk f fs, wfc cs = true -> fk f = KSwitch -> fcond f <> None ->
+    sexec (ccompile cs ++ ops) (stk, f :: fs) = sexec ops (stk, addc f cs :: fs).
+Proof. exact (proj2 (proj2 scompile_correct)). Qed.
+Print Assumptions C02_switch_clauses_are_rebuilt.
 
 (* ---- non-vacuity ---- *)
 Example ex_prog :
   let e := ENode 1 (XCons (ELeaf 10) (XCons (ENode 2 (XCons (ELeaf 11) XNil)) XNil)) in
-  let l := TCons (SIf e (TCons (SAssign (ELeaf 3) e) TNil) true (TCons (SFor (ELeaf 4) (TCons (SReturn (XCons e XNil)) TNil)) TNil)) TNil in
-  wft l = true /\ sexec (tcompile l) ([], [mkF KTop None None TNil]) = Some ([], [mkF KTop None None l]).
+  let l := TCons (SIf e (TCons (SAssign (ELeaf 3) e) TNil) true (TCons (SFor (ELeaf 4) (TCons (SReturn (XCons e XNil)) TNil)) (TCons (SSwitch (ELeaf 5) (CCons (XCons (ELeaf 6) (XCons e XNil)) (TCons (SExpr e) TNil) (CCons XNil TNil CNil))) TNil))) TNil in
+  wft l = true /\ sexec (tcompile l) ([], [mkF KTop None None TNil CNil XNil]) = Some ([], [mkF KTop None None l CNil XNil]).
 Proof. vm_compute. split; reflexivity. Qed.
